@@ -13,10 +13,15 @@
   completes while a session exists replaces the key-management context; the MAC keys of the session
   that ends (its reveal queue and the keys of its MAC history) are carried into the reveal queue of
   the new session, so the next data message discloses them.
+  API level (Proofs.KeysRefine): `khist_queue_provenance` / `api_c09_queue_provenance` — along every history
+  of the key context of a conversation driven through its API from a fresh state (steps and session
+  boundaries: key exchanges, `End`, disconnects), every key waiting in the reveal queue is the key of an
+  entry the MAC history held in an earlier state of that history: nothing else is ever disclosed.
 -/
 
 import Proofs.Keys
 import Proofs.ConvLife
+import Proofs.KeysRefineApi
 namespace Otr.C09
 open Otr
 
@@ -67,5 +72,14 @@ theorem akeHasFinished_carries_mac_keys : type_of% @Otr.akeHasFinished_carries_m
   @Otr.akeHasFinished_carries_mac_keys
 
 theorem akeHasFinished_oldMACKeys : type_of% @Otr.akeHasFinished_oldMACKeys := @Otr.akeHasFinished_oldMACKeys
+
+/-- provenance of the reveal queue along histories with session boundaries -/
+theorem khist_queue_provenance : type_of% @Otr.khist_queue_provenance := @Otr.khist_queue_provenance
+
+/-- provenance of the reveal queue along an API history (no hypothesis on the cryptography) -/
+theorem runApi_c09_queue_provenance : type_of% @Otr.runApi_c09_queue_provenance := @Otr.runApi_c09_queue_provenance
+
+/-- provenance of the reveal queue in every conversation reached through the API from a fresh one -/
+theorem api_c09_queue_provenance : type_of% @Otr.api_c09_queue_provenance := @Otr.api_c09_queue_provenance
 
 end Otr.C09
